@@ -155,6 +155,8 @@ def run(ctx):
     own.check_borrowed(ctx, SL + ':' + name, ptypes, consts, borrowed)
   fi = ctx.func(SL + ':_extract_subsequences')
   first_boundary(ctx, fi)
+  from rules import C12 as _c12      # a stream merged or searched as if it were sorted (heapq.merge, bisect) must be sorted whatever the storage order
+  _c12.assumes_sorted_in(ctx, ('_extract_subsequences', 'split_note_sequence', 'split_note_sequence_on_time_changes', 'split_note_sequence_on_silence', 'extract_subsequence', 'trim_note_sequence'))
   unit_advance(ctx, fi)
   carry_after_break(ctx, fi)
   rebuild(ctx, fi)
